@@ -222,6 +222,14 @@ class Sim:
             if isinstance(v, tuple) and v[0] == "v" and v[1] in OK_LIKE:
                 upd["dest"] = ("v", OK_LIKE[v[1]])
             return upd, set()
+        if d.endswith("FromResidual::from_residual"):
+            # `expr?` on the failure side: the function's own result is rebuilt from the residual, i.e. it is the failure variant
+            dty = self.b.local_ty(t["dest"]["l"]) if t.get("dest") and not t["dest"].get("p") else ""
+            if dty.startswith("core::result::Result<"):
+                upd["dest"] = ("v", "Err")
+            elif dty.startswith("core::option::Option<"):
+                upd["dest"] = ("v", "None")
+            return upd, set()
         if d == "core::mem::replace" and len(args) == 2:
             tgt = self.deref_target(args[0], env)
             if tgt:
